@@ -21,11 +21,20 @@ class Unsupported(EngineAbort):
     pass
 
 
+_EMPTY = frozenset()
+import os as _os0
+_FORKTRACE = bool(_os0.environ.get('VX_FORKTRACE'))
+
+
 class Ctx(object):
     """One exploration context (one harness run = many paths)."""
 
-    def __init__(self, timeout_ms=20000, max_depth=4000, label='', logic=None):
+    def __init__(self, timeout_ms=20000, max_depth=4000, label='', logic=None, incremental=False):
         self.logic = logic      # e.g. 'QF_BV' for pure bit-vector harnesses
+        # incremental: one solver per path with push/pop instead of a fresh solver on an
+        # independence slice per query (good for large linear/UF path conditions; do not
+        # use with nonlinear arithmetic, where the incremental core answers unknown)
+        self.incremental = incremental
         self.timeout_ms = timeout_ms
         self.max_depth = max_depth
         self.label = label
@@ -34,12 +43,15 @@ class Ctx(object):
                           ob_unsat=0, ob_sat=0, ob_unknown=0)
         self._vars_cache = {}   # ast id -> (ast kept alive, frozenset of var names)
         self.stubs_hit = set()
+        self.fork_sites = []
         self.reset([])
 
     # -- per-path state ----------------------------------------------------
     def reset(self, prefix):
         self.pc = []            # z3 BoolRef list: decisions + definitions + assumptions
         self.pc_vars = []       # parallel list of var-name sets
+        self.var_index = {}     # var name -> indices of pc entries mentioning it
+        self.ground = []
         self.prefix = list(prefix)
         self.decisions = []
         self.new_pending = []
@@ -50,6 +62,11 @@ class Ctx(object):
         self.failures = []      # obligations found sat on this path
         self.unknowns = []
         self.misaligned = False
+        self.known = {}
+        self.isolver = None
+        if self.incremental:
+            self.isolver = z3.SolverFor(self.logic) if self.logic else z3.Solver()
+            self.isolver.set('timeout', self.timeout_ms)
 
     # -- symbols -----------------------------------------------------------
     def fresh_name(self, base):
@@ -76,59 +93,105 @@ class Ctx(object):
 
     # -- path condition ----------------------------------------------------
     def vars_of(self, e):
-        k = e.get_id()
-        hit = self._vars_cache.get(k)
+        """frozenset of the names of the free constants of e (memoised on every
+        sub-term; the cache keeps the ASTs alive so that ids stay valid)."""
+        cache = self._vars_cache
+        hit = cache.get(e.get_id())
         if hit is not None:
             return hit[1]
-        out = set()
-        seen = set()
-        stack = [e]
+        # iterative post-order
+        stack = [(e, None)]
         while stack:
-            t = stack.pop()
+            t, kids = stack.pop()
             tid = t.get_id()
-            if tid in seen: continue
-            seen.add(tid)
-            sub = self._vars_cache.get(tid)
-            if sub is not None:
-                out |= sub[1]; continue
-            if z3.is_const(t):
-                if t.decl().kind() == z3.Z3_OP_UNINTERPRETED:
-                    out.add(t.decl().name())
+            if tid in cache: continue
+            if kids is None:
+                if z3.is_app(t):
+                    if t.num_args() == 0:
+                        if t.decl().kind() == z3.Z3_OP_UNINTERPRETED:
+                            cache[tid] = (t, frozenset([t.decl().name()]))
+                        else:
+                            cache[tid] = (t, _EMPTY)
+                        continue
+                    kids = t.children()
+                    stack.append((t, kids))
+                    for k in kids:
+                        if k.get_id() not in cache: stack.append((k, None))
+                else:
+                    cache[tid] = (t, _EMPTY)   # quantifiers / vars: not used
             else:
-                stack.extend(t.children())
-        fs = frozenset(out)
-        self._vars_cache[k] = (e, fs)
-        return fs
+                acc = None
+                for k in kids:
+                    ks = cache[k.get_id()][1]
+                    if not ks: continue
+                    if acc is None: acc = ks
+                    elif not (ks <= acc): acc = acc | ks
+                cache[tid] = (t, acc if acc is not None else _EMPTY)
+        return cache[e.get_id()][1]
 
     def add(self, e):
         """Add a constraint to the path condition (no feasibility check)."""
         if isinstance(e, SBool): e = e.e
         if isinstance(e, bool):
             if not e:
-                self.pc.append(z3.BoolVal(False)); self.pc_vars.append(frozenset())
+                self.pc.append(z3.BoolVal(False)); self.pc_vars.append(frozenset()); self.ground.append(len(self.pc) - 1)
             return
         self.pc.append(e)
-        self.pc_vars.append(self.vars_of(e))
+        if self.isolver is not None:
+            self.isolver.add(e)
+            self.pc_vars.append(frozenset())
+        else:
+            vs = self.vars_of(e)
+            self.pc_vars.append(vs)
+            i = len(self.pc) - 1
+            if not vs: self.ground.append(i)
+            for v in vs:
+                l = self.var_index.get(v)
+                if l is None: self.var_index[v] = [i]
+                else: l.append(i)
+        # remember asserted facts (also in simplified form) so that a later
+        # branch on exactly this condition needs no solver call
+        self.known[e.get_id()] = e
+        es = z3.simplify(e)
+        self.known[es.get_id()] = es
 
     assume = add
 
     def slice_for(self, e):
-        """Constraints of the pc transitively sharing variables with e."""
-        want = set(self.vars_of(e))
-        n = len(self.pc)
-        taken = [False] * n
-        changed = True
-        while changed:
-            changed = False
-            for i in range(n):
-                if not taken[i] and (self.pc_vars[i] & want or not self.pc_vars[i]):
-                    taken[i] = True
-                    if not self.pc_vars[i] <= want:
-                        want |= self.pc_vars[i]; changed = True
-        return [self.pc[i] for i in range(n) if taken[i]]
+        """Constraints of the pc transitively sharing variables with e
+        (plus the ground ones), found through a variable -> constraint index."""
+        idx = self.var_index
+        seen_vars = set()
+        taken = set(self.ground)
+        work = list(self.vars_of(e))
+        while work:
+            v = work.pop()
+            if v in seen_vars: continue
+            seen_vars.add(v)
+            for i in idx.get(v, ()):
+                if i not in taken:
+                    taken.add(i)
+                    for w in self.pc_vars[i]:
+                        if w not in seen_vars: work.append(w)
+        return [self.pc[i] for i in sorted(taken)]
 
     def solve(self, extra, full=False, timeout_ms=None):
         """check-sat of (slice of) pc plus extra; returns ('sat', model) etc."""
+        if self.isolver is not None:
+            s = self.isolver
+            s.push()
+            try:
+                s.add(extra)
+                t0 = time.time()
+                r = s.check()
+                dt = time.time() - t0
+                self.stats['queries'] += 1
+                self.stats['solver_s'] += dt
+                rs = str(r)
+                self.stats[rs] = self.stats.get(rs, 0) + 1
+                return (rs, s.model()) if rs == 'sat' else (rs, None)
+            finally:
+                s.pop()
         s = z3.SolverFor(self.logic) if self.logic else z3.Solver()
         s.set('timeout', timeout_ms or self.timeout_ms)
         cons = self.pc if full else self.slice_for(extra)
@@ -166,6 +229,16 @@ class Ctx(object):
                 self.add(e if d else z3.Not(e))
             return d
         ne = z3.Not(e)
+        hit = self.known.get(e.get_id())
+        if hit is not None and hit.eq(e):
+            self.decisions.append((True, True)); self.stats['known_hits'] = self.stats.get('known_hits', 0) + 1
+            return True
+        if z3.is_not(e):
+            inner = e.arg(0)
+            hit = self.known.get(inner.get_id())
+            if hit is not None and hit.eq(inner):
+                self.decisions.append((False, True)); self.stats['known_hits'] = self.stats.get('known_hits', 0) + 1
+                return False
         ft, rt = self.feasible(e)
         if not ft:
             self.decisions.append((False, True))
@@ -176,6 +249,10 @@ class Ctx(object):
             return True
         # both feasible (or unknown)
         self.stats['forks'] += 1
+        if _FORKTRACE:
+            import traceback
+            fr = [f for f in traceback.extract_stack() if '/repo/' in f.filename or '/harness/' in f.filename][-3:]
+            self.fork_sites.append(' <- '.join('%s:%d' % (f.filename.split('/')[-1], f.lineno) for f in reversed(fr)) + '  ' + str(e)[:100].replace('\n', ' '))
         self.new_pending.append(self.decisions + [(False, False)])
         self.decisions.append((True, False))
         self.add(e)
@@ -207,6 +284,35 @@ class Ctx(object):
             self.stats['ob_unknown'] += 1
             self.unknowns.append(dict(label=label, info=info))
         return r
+
+    def prove_all(self, items):
+        """items: list of (formula, label).  One query for the conjunction; only
+        if that is not unsat are the obligations examined one by one.
+        Returns list of (label, result) for the non-unsat ones."""
+        forms = []
+        for f, label in items:
+            if isinstance(f, SBool): f = f.e
+            if isinstance(f, bool): f = z3.BoolVal(f)
+            forms.append((f, label))
+        if not forms: return []
+        conj = z3.simplify(z3.And(*[f for f, _ in forms]))
+        if z3.is_true(conj):
+            n = len(forms)
+            self.stats['obligations'] += n; self.stats['ob_unsat'] += n
+            self.stats['ob_trivial'] = self.stats.get('ob_trivial', 0) + n
+            return []
+        if not z3.is_false(conj):
+            r, m = self.solve(z3.Not(conj))
+            if r == 'unsat':
+                n = len(forms)
+                self.stats['obligations'] += n; self.stats['ob_unsat'] += n
+                self.stats['ob_batched'] = self.stats.get('ob_batched', 0) + n
+                return []
+        bad = []
+        for f, label in forms:
+            r = self.prove(f, label)
+            if r != 'unsat': bad.append((label, r))
+        return bad
 
     def reachable(self):
         """Reachability witness: is the current pc satisfiable as a whole?"""
@@ -662,7 +768,7 @@ def explore(fn, ctx_obj=None, max_paths=2000, wall_s=None, on_path=None, profile
             prefix = pending.pop()
             c.reset(prefix)
             outcome = 'ok'
-            first = profile_repo and not results
+            first = profile_repo and not results and not _os.environ.get("VX_NOPROFILE")
             if first: _sys.setprofile(prof)
             try:
                 ret = fn(c)
